@@ -16,6 +16,8 @@ import (
 
 	"k8s.io/klog/v2"
 
+	kbprom "github.com/kubewharf/kubebrain/pkg/metrics/prometheus"
+
 	"verif/sim/rt"
 	"verif/sim/world"
 )
@@ -90,6 +92,10 @@ func TestMain(m *testing.M) {
 			}
 		}
 	}()
+	if os.Getenv("VERIF_PROP") == "C20" {
+		// production metrics: the real Prometheus client (one per process: it registers globally)
+		world.RealMetrics = kbprom.NewMetrics()
+	}
 	os.Exit(m.Run())
 }
 
@@ -143,6 +149,11 @@ func TestWorker(t *testing.T) {
 	maxFail := envInt("VERIF_MAX_FAIL", 3)
 
 	runOne := func(sc *world.Scenario, idx int) {
+		if outPath != "" {
+			// if this run kills the process, the driver finds out which scenario it was
+			cb, _ := json.Marshal(map[string]interface{}{"run_index": idx, "scenario": sc})
+			os.WriteFile(outPath+".current", cb, 0o644)
+		}
 		runStarted.Store(time.Now().UnixNano())
 		out := Execute(t, p, sc)
 		runStarted.Store(0)
